@@ -40,13 +40,17 @@ type vfC06Peers struct {
 }
 
 func vfC06Setup(t *testing.T, proto []string) (p *vfC06Peers, err error) {
+	return vfC06SetupOpts(t, proto, nil)
+}
+
+func vfC06SetupOpts(t *testing.T, proto []string, unsupported *db.UnsupportedOptions) (p *vfC06Peers, err error) {
 	defer func() {
 		if r := recover(); r != nil {
 			err = fmt.Errorf("setup panic: %v", r)
 		}
 	}()
 	passive := NewRestTester(t, &RestTesterConfig{
-		DatabaseConfig: &DatabaseConfig{DbConfig: DbConfig{Name: "passivedb"}},
+		DatabaseConfig: &DatabaseConfig{DbConfig: DbConfig{Name: "passivedb", Unsupported: unsupported}},
 		SyncFn:         channels.DocChannelsSyncFunction,
 	})
 	passive.CreateUser("alice", []string{"*"})
@@ -54,7 +58,7 @@ func vfC06Setup(t *testing.T, proto []string) (p *vfC06Peers, err error) {
 	u, _ := url.Parse(srv.URL + "/" + passive.GetDatabase().Name)
 	u.User = url.UserPassword("alice", RestTesterDefaultUserPassword)
 	active := NewRestTester(t, &RestTesterConfig{
-		DatabaseConfig:     &DatabaseConfig{DbConfig: DbConfig{Name: "activedb"}},
+		DatabaseConfig:     &DatabaseConfig{DbConfig: DbConfig{Name: "activedb", Unsupported: unsupported}},
 		SgReplicateEnabled: true,
 		SyncFn:             channels.DocChannelsSyncFunction,
 	})
